@@ -95,7 +95,9 @@ type pkgOD struct {
 	Hash   string `json:"hash"`  // utils.ComputeFNV32Hash of spec.template, as the ObjectDeployment controller computes it
 	Paused bool   `json:"paused"`
 	Gen    int64  `json:"gen"`
-	Slices int    `json:"slices"` // phases that reference ObjectSlices (expected 0)
+	Slices int    `json:"slices"` // phases that reference ObjectSlices (their objects are inlined before Tmpl is computed)
+	// referenced ObjectSlices that do not exist
+	MissingSlices []string `json:"missing_slices,omitempty"`
 }
 
 type pkgPass struct {
@@ -173,6 +175,20 @@ func (f pkgFlavour) odKind() string {
 		return "ClusterObjectDeployment"
 	}
 	return "ObjectDeployment"
+}
+
+func (f pkgFlavour) sliceKind() string {
+	if f.cluster {
+		return "ClusterObjectSlice"
+	}
+	return "ObjectSlice"
+}
+
+func (f pkgFlavour) newSlice(scheme *runtime.Scheme) adapters.ObjectSliceAccessor {
+	if f.cluster {
+		return adapters.NewClusterObjectSlice(scheme)
+	}
+	return adapters.NewObjectSlice(scheme)
 }
 
 func (f pkgFlavour) newPkg(scheme *runtime.Scheme) adapters.GenericPackageAccessor {
@@ -486,18 +502,38 @@ func init() {
 						return nil, err
 					}
 					spec := od.GetTemplateSpec()
+					o := &pkgOD{Empty: len(spec.Phases) == 0, Paused: od.GetSpecPaused(), Gen: od.ClientObject().GetGeneration()}
+					g := renderGroup{}
+					fillOutput(&g, od)
+					o.Hash = g.Hash
+					// the template the ObjectDeployment stands for: objects of referenced ObjectSlices inlined in order
+					for pi := range spec.Phases {
+						ph := &spec.Phases[pi]
+						if len(ph.Slices) == 0 {
+							continue
+						}
+						o.Slices++
+						for _, name := range ph.Slices {
+							sm := store.RawGet(storeKey{corev1alpha1.GroupVersion.Group, fl.sliceKind(), key.Namespace, name})
+							if sm == nil {
+								o.MissingSlices = append(o.MissingSlices, name)
+								continue
+							}
+							sl := fl.newSlice(scheme)
+							if err := store.fromMap(sm, sl.ClientObject()); err != nil {
+								return nil, err
+							}
+							ph.Objects = append(ph.Objects, sl.GetObjects()...)
+						}
+						ph.Slices = nil
+					}
 					sum, err := canonicalSum(spec)
 					if err != nil {
 						return nil, err
 					}
-					o := &pkgOD{Empty: len(spec.Phases) == 0, Tmpl: sum, Paused: od.GetSpecPaused(), Gen: od.ClientObject().GetGeneration()}
-					g := renderGroup{}
-					fillOutput(&g, od)
-					o.Hash = g.Hash
-					for _, ph := range spec.Phases {
-						if len(ph.Slices) > 0 {
-							o.Slices++
-						}
+					o.Tmpl = sum
+					if len(o.MissingSlices) > 0 {
+						o.Tmpl = "missing-slices:" + strings.Join(o.MissingSlices, ",")
 					}
 					p.OD = o
 				}
